@@ -81,8 +81,8 @@ func offsetAt(loc *time.Location, u int64) int {
 
 // ScanZone establishes the facts above by walking the zone's periods
 // (Time.ZoneBounds) and cross-checks the walk against an independent probe of
-// the offset at every UTC quarter hour of the era.
-func ScanZone(name string, loc *time.Location, from, to int64) (*Zone, error) {
+// the offset at every UTC quarter hour of the era (crossCheck).
+func ScanZone(name string, loc *time.Location, from, to int64, crossCheck bool) (*Zone, error) {
 	z := &Zone{Name: name, Loc: loc, From: from, To: to, badQuarter: map[int64]bool{}, badMinute: map[int64]bool{}, AllOffsets15m: true}
 	offs := map[int]bool{}
 	cur := time.Unix(from, 0).In(loc)
@@ -119,6 +119,11 @@ func ScanZone(name string, loc *time.Location, from, to int64) (*Zone, error) {
 		}
 	}
 	sort.Ints(z.Offsets)
+	if !crossCheck {
+		// the walk is deterministic: a process that only re-derives a table some
+		// other process has already cross-checked may skip the probe
+		return z, nil
+	}
 	// cross-check: the offset differs between consecutive quarter hours exactly
 	// where a recorded transition lies in (q, q+900].
 	ti := 0
